@@ -115,6 +115,13 @@ def complete_guard(eng, res, P: Pick, produce_node, produced, rule):
     res.ob(rule, fi, "complete-before-produce", "a test of the produced molecule's fully_generated, raising otherwise, dominates its production", produce_node, ok, why)
 
 
+def _func_of(n):
+    p = getattr(n, "_parent", None)
+    while p is not None and not isinstance(p, (ast.FunctionDef, ast.AsyncFunctionDef, ast.Lambda)):
+        p = getattr(p, "_parent", None)
+    return p
+
+
 def accum(eng, res, P: Pick, rule="R-ACCUM"):
     fi, flow, cfg = P.fi, P.flow, P.cfg
     loops = [n for n in own_nodes(fi.node) if isinstance(n, ast.While)]
@@ -174,6 +181,15 @@ def accum(eng, res, P: Pick, rule="R-ACCUM"):
         why = f"in-loop={in_loop} adds-weight-of-yielded={bool(same)} on-every-path-to-yield={every} once-per-iteration={once}"
     res.ob(rule, fi, "single-accumulation", "the accumulator grows exactly once per iteration, by the weight of the molecule yielded in that iteration, on every path to the yield",
            augs[0].stmt if augs else lp, ok, why)
+    # the loop is left only through its test, and whatever was generated and accumulated is yielded
+    early = [n for n in ast.walk(lp) if isinstance(n, (ast.Break, ast.Return)) and fi.node is _func_of(n)]
+    res.ob(rule, fi, "only-exit-is-the-test", "the ensemble loop is left only through its test (no break / return drops or cuts the sequence)", early[0] if early else lp, not early,
+           f"{len(early)} break/return statement(s) inside the loop")
+    if augs:
+        r = cfg.reachable([d for d, lab in cfg.succ[augs[0].nid] if lab != "exc"], avoid_nodes={yn})
+        ok = hn not in r and cfg.exit not in r and yn not in {d for d, lab in cfg.succ[augs[0].nid] if False}
+        res.ob(rule, fi, "accumulated-is-yielded", "a molecule whose weight was accumulated is yielded before the next test (none is dropped)", augs[0].stmt, ok,
+               "a path from the accumulation reaches the loop test / the end without the yield")
     # yielded value defined in this iteration
     if isinstance(yv, ast.Name):
         defs = flow.reaching(yv.id, yn)
@@ -223,5 +239,25 @@ def check(eng, res):
         res.ob("R-ACCUM", sm, "system-mass-source", "the system mass is the system mass recorded on the components' mixtures", sm.node,
                bool(t) and all(x == "self._molecules[0].mixture.system_mass" for x in t), f"returns {t}")
     res.floor("R-GEN-GUARD", 3, 3)
+    # the accumulated quantity is the heavy-atom mass, and fully_generated means "no open descriptor" (shared C05 / C06)
+    from . import c05, c06
+
+    sub = type(res)(res.prop)
+    c05.accessors(eng, sub)
+    c06.fully(eng, sub)
+    for o in sub.obligations:
+        if o.role in ("weight-own-heavy-atoms", "meaning"):
+            res.obligations.append(o)
+    # what "generable" means for a system and its components (shared with C15): refusing relies on it
+    from . import c15
+
+    sub = type(res)(res.prop)
+    c15.generable_conj(eng, sub)
+    for o in sub.obligations:
+        if o.function.startswith(("system.", "molecule.")):
+            res.obligations.append(o)
+    res.doc("R-GENERABLE-CONJ", "System / Molecule generable is the conjunction over children and the mass estimate (shared with C15)")
+    res.doc("R-ACCESSORS", "MolGen.weight is the heavy-atom weight of the object's own molecule (shared with C05)")
+    res.doc("R-FULLY", "fully_generated == no open descriptor (shared with C06)")
     res.assumptions += ["MolGen.weight is the heavy-atom mass of the generated molecule (C05 R-ACCESSORS)", "Python generator semantics: code after `yield` resumes on the next request"]
     res.not_decided += ["runtime membership of a molecule in a component's ensemble", "actual masses"]
